@@ -118,6 +118,10 @@ func vary(r *rand.Rand, ops []spec.Op, v variation) []spec.Op {
 	}
 	if v.toggle {
 		var out []spec.Op
+		registered := map[string]bool{}
+		if base.K != spec.KNew {
+			registered["http"], registered["https"], registered["mailto"] = true, true, true // UGCPolicy
+		}
 		for _, o := range sws {
 			switch o.K {
 			case spec.KSwitch:
@@ -140,6 +144,37 @@ func vary(r *rand.Rand, ops []spec.Op, v variation) []spec.Op {
 				if r.Intn(2) == 0 {
 					out = append(out, o)
 				}
+			// scheme registrations: the most recent call for a scheme decides. A plain registration discards
+			// validators registered before it; a validator registered after a plain registration restricts it.
+			// (Both calls switch URL parsing on, so the inserted call changes nothing else.)
+			case spec.KSchemes:
+				if r.Intn(2) == 0 && len(o.Names) > 0 {
+					out = append(out, spec.Op{K: spec.KSchemeCustom, Names: []string{o.Names[r.Intn(len(o.Names))]}, Check: gen.Pick(r, []string{"never", "host-cdn", "no-query"})})
+				}
+			case spec.KStdURLs, spec.KImages:
+				if r.Intn(2) == 0 {
+					out = append(out, spec.Op{K: spec.KSchemeCustom, Names: []string{gen.Pick(r, []string{"http", "https", "mailto", "HTTPS"})}, Check: gen.Pick(r, []string{"never", "host-cdn", "no-query"})})
+				}
+			// validators accumulate (any one may accept), so a plain registration may only be slipped in
+			// before the FIRST registration of that scheme
+			case spec.KSchemeCustom:
+				if r.Intn(2) == 0 && !registered[strings.ToLower(o.Names[0])] {
+					out = append(out, spec.Op{K: spec.KSchemes, Names: []string{o.Names[0]}})
+				}
+			case spec.KDataURIImages:
+				if r.Intn(2) == 0 && !registered["data"] {
+					out = append(out, spec.Op{K: spec.KSchemes, Names: []string{"data"}})
+				}
+			}
+			switch o.K {
+			case spec.KSchemes, spec.KSchemeCustom:
+				for _, n := range o.Names {
+					registered[strings.ToLower(n)] = true
+				}
+			case spec.KDataURIImages:
+				registered["data"] = true
+			case spec.KStdURLs, spec.KImages:
+				registered["http"], registered["https"], registered["mailto"] = true, true, true
 			}
 			out = append(out, o)
 		}
